@@ -161,3 +161,4 @@ pub mod g6rt;
 pub mod g7rt;
 pub mod ps;
 pub mod mkdrv;
+pub mod g9rt;
